@@ -130,10 +130,11 @@ impl Verdict {
     }
     /// `key` names the failing input class (used to match known findings); `detail` is the replayable case.
     pub fn mismatch(&mut self, key: &str, detail: Value) {
-        if self.mismatches.len() < 200 {
+        let seen = self.mismatches.iter().filter(|m| m["key"] == key).count();
+        if seen < 3 && self.mismatches.len() < 300 {
             self.mismatches.push(json!({"key": key, "detail": detail}));
         } else {
-            let c = self.extra.entry("mismatches_dropped").or_insert(json!(0));
+            let c = self.extra.entry("mismatches_not_listed").or_insert(json!(0));
             *c = json!(c.as_u64().unwrap() + 1);
         }
     }
@@ -187,4 +188,18 @@ pub fn catch<T>(f: impl FnOnce() -> T) -> Result<T, String> {
 
 pub fn quiet_panics() {
     std::panic::set_hook(Box::new(|_| {}));
+}
+
+/// 12-bit little-endian limbs of a magnitude, by bit slicing only (no code shared with the library under test)
+pub fn limbs(mut m: u128) -> Vec<u32> {
+    let mut out = vec![];
+    while m != 0 {
+        out.push((m & 0xFFF) as u32);
+        m >>= 12;
+    }
+    out
+}
+
+pub fn signed_limbs(v: i128) -> (bool, Vec<u32>) {
+    (v < 0, limbs(v.unsigned_abs()))
 }
